@@ -443,8 +443,26 @@ type Config struct {
 	TailCalls                    bool // return_call (needs experimental.CoreFeaturesTailCall)
 	SIMD                         bool // v128 locals and lane-wise integer ops (outside the Lean fragment)
 	Atomics                      bool // atomic loads / stores / read-modify-writes / compare-exchanges / notify (threads feature, run single-threaded; outside the Lean fragment)
+	Dense                        bool // the statements of the enabled families (block parameters, catalogue accesses) are drawn four times as often
 	BlockParams                  bool // block / loop / if with parameters and several results, taken back edges with operands (outside the Lean fragment)
 }
+
+// RandomProfile draws which instruction families beyond the base fragment a generated module uses: every harness
+// that wants "all programs" draws from here, so that a family added to the generator reaches all of them.
+func RandomProfile(r *rand.Rand, cfg Config) Config {
+	cfg.TailCalls = r.Intn(3) == 0
+	cfg.SIMD = r.Intn(4) == 0
+	cfg.BlockParams = r.Intn(4) == 0
+	cfg.Atomics = r.Intn(4) == 0
+	if r.Intn(4) == 0 { // register-pressure / ABI-cliff profile: many params, results and locals
+		cfg.MaxParams, cfg.MaxResults, cfg.MaxLocals = 6+r.Intn(10), 1+r.Intn(5), 8+r.Intn(16)
+		cfg.MaxDepth = 2 + r.Intn(2)
+	}
+	return cfg
+}
+
+// NeedsExtendedFeatures: the module uses tail calls or atomics (features beyond WebAssembly 2.0).
+func (c Config) NeedsExtendedFeatures() bool { return c.TailCalls || c.Atomics }
 
 type fgen struct {
 	leafOnly  bool // no fuel prelude, hence no calls of guest functions
@@ -826,6 +844,16 @@ func (g *fgen) stmt(depth int) {
 			g.a.LocalSet(ls[r.Intn(len(ls))])
 		}
 		return
+	}
+	if g.cfg.Dense && r.Intn(4) == 0 {
+		switch {
+		case g.cfg.BlockParams && r.Intn(2) == 0:
+			g.paramBlock(depth)
+			return
+		case g.m.HasMem && (g.cfg.Atomics || g.cfg.SIMD):
+			g.catalogueAccess(depth)
+			return
+		}
 	}
 	switch r.Intn(21) {
 	case 17, 18:
